@@ -45,6 +45,26 @@ def _only_raises(stmts: List[ast.stmt], mi=None, depth: int = 0) -> bool:
     return True
 
 
+PURE_CALLS = {"len", "bool", "int", "float", "abs", "min", "max", "tuple", "isinstance", "sum"}
+
+
+def _pure_view(body, ci, name) -> bool:
+    if len(body) != 1 or not isinstance(body[0], ast.Return) or body[0].value is None:
+        return False
+    twin = "_" + name
+    for n in ast.walk(ci.node):
+        if isinstance(n, ast.Attribute) and n.attr == twin:
+            return False  # a private twin exists: this is a stored property and must be transparent
+    for n in ast.walk(body[0].value):
+        if isinstance(n, ast.Call):
+            f = n.func
+            if not (isinstance(f, ast.Name) and f.id in PURE_CALLS):
+                return False
+        if isinstance(n, (ast.Lambda, ast.NamedExpr, ast.Yield, ast.YieldFrom, ast.Await, ast.ListComp, ast.GeneratorExp)):
+            return False
+    return True
+
+
 def check_transparent_properties(rep, repo: Repo, pre: str = "") -> int:
     n = 0
     for mi in repo.modules.values():
@@ -55,6 +75,11 @@ def check_transparent_properties(rep, repo: Repo, pre: str = "") -> int:
                 want = DERIVED_GETTERS.get((ci.name, name), f"self._{name}")
                 ok = len(body) == 1 and isinstance(body[0], ast.Return) and body[0].value is not None \
                     and unparse(body[0].value) == want
+                if not ok and name not in ci.setters and _pure_view(body, ci, name):
+                    # a read-only, computed view of other fields (no setter, no private twin written anywhere): it cannot
+                    # make a stored field differ from what was stored
+                    ok = True
+                    want = "a pure expression of other fields (read-only view)"
                 rep.fn(pre + "PROP-getter", g, f"{ci.name}.{name} getter returns {want}", ok,
                        f"the getter returns '{unparse(body[0].value) if body and isinstance(body[0], ast.Return) and body[0].value is not None else '...'}': "
                        "reads of this field are not the stored value")
